@@ -36,9 +36,18 @@ fn v4_of(k: usize) -> SocketAddrV4 {
 fn v6_of(k: usize) -> SocketAddrV6 {
     SocketAddrV6::new(Ipv6Addr::new(0x2001, 0xdb8, 0, 0, 0, 0, 0, k as u16 + 1), 9100 + k as u16, 0, 0)
 }
+/// The canonical record "p<k>:1:v4" from the shared cache (created on first use).
+fn pool_rec_v4(k: usize) -> Enr {
+    let spec = format!("p{k}:1:v4");
+    let mut g = REC_CACHE.lock().unwrap();
+    let m = g.get_or_insert_with(HashMap::new);
+    m.entry(spec).or_insert_with(|| { let mut b = Enr::builder(); b.seq(1); b.ip4(*v4_of(k).ip()); b.udp4(v4_of(k).port()); b.build(&mk_key(k)).unwrap() }).clone()
+}
 fn nomark_filter(e: &Enr) -> bool {
     e.tcp4() != Some(6666)
 }
+
+static REC_CACHE: Mutex<Option<HashMap<String, Enr>>> = Mutex::new(None);
 
 struct Peer {
     key: CombinedKey,
@@ -49,6 +58,7 @@ struct Pending {
     name: String,
     id: RequestId,
     to: NodeAddress,
+    ds: Vec<u64>,
 }
 
 pub struct World {
@@ -68,14 +78,20 @@ pub struct World {
     sizer: Option<(PeerSession, NodeId)>,
     mode: String,
     exited: bool,
+    seconds: HashMap<String, Box<World>>,
 }
 
 impl World {
     pub async fn new(cfg: &Value) -> World {
         verif::ban_list_reset();
+        Self::new_as(cfg, None).await
+    }
+
+    /// `ident` = Some(k): the node is pool peer p<k> (used as a second, honest node answering requests).
+    async fn new_as(cfg: &Value, ident: Option<usize>) -> World {
         let mode = cfg.get("mode").and_then(|x| x.as_str()).unwrap_or("ip4").to_string();
-        let lkey = mk_key(1000);
-        let l4 = SocketAddrV4::new(Ipv4Addr::new(10, 0, 0, 100), 9000);
+        let lkey = mk_key(ident.unwrap_or(1000));
+        let l4 = match ident { Some(k) => v4_of(k), None => SocketAddrV4::new(Ipv4Addr::new(10, 0, 0, 100), 9000) };
         let l6 = SocketAddrV6::new(Ipv6Addr::new(0x2001, 0xdb8, 0, 0, 0, 0, 0, 0x100), 9006, 0, 0);
         let mut b = Enr::builder();
         let listen = match mode.as_str() {
@@ -97,7 +113,10 @@ impl World {
                 ListenConfig::Ipv4 { ip: *l4.ip(), port: l4.port() }
             }
         };
-        let lenr = b.build(&lkey).unwrap();
+        let lenr = match ident {
+            Some(k) => pool_rec_v4(k),
+            None => b.build(&lkey).unwrap(),
+        };
         let local_id = lenr.node_id();
         let mut cb = ConfigBuilder::new(listen);
         cb.request_timeout(Duration::from_secs(10))
@@ -120,7 +139,7 @@ impl World {
         let (hin, hout, hexit) = d.verif_start_scripted().unwrap();
         let events = d.event_stream().await.unwrap();
         let peers = (1..=NPEERS).map(|i| { let key = mk_key(i); let id = NodeId::from(key.public()); Peer { key, id } }).collect();
-        let mut w = World { d, hin, hout, hexit, events, peers, local_id, recs: HashMap::new(), back: HashMap::new(), reqs: vec![], talks: vec![], done: Arc::new(Mutex::new(vec![])), ncalls: 0, sizer: None, mode, exited: false };
+        let mut w = World { d, hin, hout, hexit, events, peers, local_id, recs: HashMap::new(), back: HashMap::new(), reqs: vec![], talks: vec![], done: Arc::new(Mutex::new(vec![])), ncalls: 0, sizer: None, mode, exited: false, seconds: HashMap::new() };
         // a real session used only to measure the datagram a response is sent in
         let fake_way = verif::whoareyou_packet([7u8; 12], [9u8; 16], 0).authenticated_data();
         let remote = w.rec("p1:1:v4");
@@ -144,6 +163,12 @@ impl World {
     fn rec(&mut self, spec: &str) -> Enr {
         if let Some(e) = self.recs.get(spec) {
             return e.clone();
+        }
+        // records are shared by all nodes of a run (signatures are not deterministic, names are resolved by content)
+        if let Some(e) = REC_CACHE.lock().unwrap().get_or_insert_with(HashMap::new).get(spec).cloned() {
+            self.recs.insert(spec.to_string(), e.clone());
+            self.back.insert(alloy_rlp::encode(&e), spec.to_string());
+            return e;
         }
         let parts: Vec<&str> = spec.split(':').collect();
         let k = self.peer_idx(parts[0]) + 1;
@@ -199,6 +224,7 @@ impl World {
         } else {
             build(0, key).unwrap()
         };
+        REC_CACHE.lock().unwrap().get_or_insert_with(HashMap::new).insert(spec.to_string(), e.clone());
         self.recs.insert(spec.to_string(), e.clone());
         self.back.insert(alloy_rlp::encode(&e), spec.to_string());
         e
@@ -251,7 +277,7 @@ impl World {
                 HandlerIn::Request(contact, req) => {
                     let na = contact.node_address();
                     let name = format!("r{}", self.reqs.len() + 1);
-                    self.reqs.push(Pending { name: name.clone(), id: req.id.clone(), to: na.clone() });
+                    self.reqs.push(Pending { name: name.clone(), id: req.id.clone(), to: na.clone(), ds: if let RequestBody::FindNode { distances } = &req.body { distances.clone() } else { vec![] } });
                     let body = match &req.body {
                         RequestBody::Ping { enr_seq } => json!({"t": "ping", "seq": enr_seq}),
                         RequestBody::FindNode { distances } => json!({"t": "findnode", "ds": distances}),
@@ -472,6 +498,54 @@ impl World {
                         info.insert("unresolved".into(), json!("no such talk request held"));
                     }
                 }
+            }
+            "honest_reply" => {
+                // the request r<N> is answered by a second real node with the responder's identity and the given table
+                let pos = match self.reqs.iter().position(|r| r.name == util::s(op, "req")) { Some(p) => p, None => { info.insert("unresolved".into(), json!("no such request")); return Value::Object(info); } };
+                let (id, to) = (self.reqs[pos].id.clone(), self.reqs[pos].to.clone());
+                let rname = self.id_name(&to.node_id);
+                let ds: Vec<u64> = self.reqs[pos].ds.clone();
+                info.insert("ds".into(), json!(ds));
+                if !self.seconds.contains_key(&rname) {
+                    let k = self.peer_idx(&rname) + 1;
+                    // creating a Discv5 instance re-initialises the process-global permit/ban list: keep what was there
+                    let saved = verif::ban_list_snapshot();
+                    let mut w2 = Box::pin(World::new_as(&json!({"mode": self.mode, "maxnodes": 16}), Some(k))).await;
+                    for n in saved.ban_nodes.keys() {
+                        self.d.ban_node(n, None);
+                    }
+                    for ip in saved.ban_ips.keys() {
+                        self.d.ban_ip(*ip, None);
+                    }
+                    for spec in op["table"].as_array().unwrap() {
+                        let e = w2.rec(spec.as_str().unwrap());
+                        let _ = w2.d.add_enr(e);
+                    }
+                    self.seconds.insert(rname.clone(), Box::new(w2));
+                }
+                let laddr = NodeAddress::new(SocketAddr::new(IpAddr::V4(Ipv4Addr::new(10, 0, 0, 100)), 9000), self.local_id);
+                let mut packets = vec![];
+                {
+                    let w2 = self.seconds.get_mut(&rname).unwrap();
+                    let _ = w2.hout.send(HandlerOut::Request(laddr, Box::new(Request { id: id.clone(), body: RequestBody::FindNode { distances: ds } }))).await;
+                    tokio::time::sleep(Duration::from_millis(1)).await;
+                    while let Ok(x) = w2.hin.try_recv() {
+                        if let HandlerIn::Response(_, resp) = x {
+                            packets.push(*resp);
+                        }
+                    }
+                }
+                let mut desc = vec![];
+                for resp in packets {
+                    if let ResponseBody::Nodes { total, nodes } = &resp.body {
+                        let names: Vec<String> = nodes.iter().map(|e| { let n = self.rec_name(e); if n.starts_with('?') { let spec = format!("{}:{}:v4", self.id_name(&e.node_id()), e.seq()); let _ = self.rec(&spec); self.rec_name(e) } else { n } }).collect();
+                        let dists: Vec<u64> = nodes.iter().map(|e| self.log2(&to.node_id, &e.node_id())).collect();
+                        desc.push(json!({"total": total, "recs": names, "dists": dists}));
+                    }
+                    let _ = self.hout.send(HandlerOut::Response(to.clone(), Box::new(resp))).await;
+                }
+                info.insert("packets".into(), json!(desc));
+                info.insert("from".into(), json!(rname));
             }
             "shutdown" => self.d.shutdown(),
             "poke" => {
